@@ -30,8 +30,17 @@ def make_scratch():
 
 
 def run_one(pid, mut, scratch, verbose):
-    edits = mut.get("edits") or [{"file": mut["file"], "old": mut["old"], "new": mut["new"]}]
     saved = {}
+    if mut.get("patch"):
+        # a whole patch (one of the seeded changes) instead of textual edits
+        pf = os.path.join(VERIF, mut["patch"])
+        r = subprocess.run(["patch", "-p1", "-s", "-d", scratch, "-i", pf], capture_output=True, text=True)
+        if r.returncode != 0:
+            subprocess.run(["patch", "-p1", "-s", "-R", "-f", "-d", scratch, "-i", pf], capture_output=True, text=True)
+            return "BROKEN", "patch does not apply: %s" % (r.stdout + r.stderr)[-200:]
+        edits = []
+    else:
+        edits = mut.get("edits") or [{"file": mut["file"], "old": mut["old"], "new": mut["new"]}]
     try:
         for e in edits:
             path = os.path.join(scratch, e["file"])
@@ -63,6 +72,12 @@ def run_one(pid, mut, scratch, verbose):
     finally:
         for path, src in saved.items():
             open(path, "w").write(src)
+        if mut.get("patch"):
+            subprocess.run(["patch", "-p1", "-s", "-R", "-f", "-d", scratch, "-i", os.path.join(VERIF, mut["patch"])], capture_output=True, text=True)
+            for root, dirs, files in os.walk(scratch):
+                for f in files:
+                    if f.endswith((".orig", ".rej")):
+                        os.unlink(os.path.join(root, f))
 
 
 def main():
